@@ -13,6 +13,10 @@
 EXTENDS Naturals, Sequences, FiniteSets, TLC
 
 CONSTANT NanoMax      \* nanoseconds per second: 1000000000 for real traces, small in MC
+CONSTANT CommitOrder  \* which commit the code under test has (sections B and C; the checks read it off the
+                      \* order in which the real commit passes its H3 pause points):
+                      \*   "publish_first"  in-memory publications, then the database (tree up to hook H3)
+                      \*   "storage_first"  database first, publications afterwards (repair of finding C04)
 
 (***************************************************************************)
 (* A. TIME AND CHANGE IDENTIFIERS (C07)                                    *)
@@ -91,7 +95,7 @@ CrashOk(rec, before, after, verify, nextc, cmax) ==
 \*         unpublished write half is dropped and SQLite rolls back)
 \* t = "C" crash-only point (nothing can fail there, the process can die)
 St(t, c) == [t |-> t, c |-> c]
-CommitSteps == <<
+CommitStepsPublishFirst == <<
   St("S", "reload"),                       \* qs_write.reload(): a schema change reindexes (DDL + purge)
   St("P", "apps"), St("P", "oauth2"), St("P", "credsess"), St("P", "o2prov"),   \* idm/server.rs commit
   St("S", "ts_max"),                       \* be_txn.set_db_ts_max(cid.ts)
@@ -103,6 +107,20 @@ CommitSteps == <<
   St("C", "post_commit"),
   St("P", "be"),                           \* op_ts_max, name, idx_exists, idl, allids, maxid, keyhandles, entry caches
   St("P", "ruv"), St("P", "idxmeta") >>
+\* repaired order: qs_write.commit() runs before the IDM publications, and inside it be_txn.commit()
+\* runs right after set_db_ts_max, before cid / filter cache / schema ... access controls
+CommitStepsStorageFirst == <<
+  St("S", "reload"),
+  St("S", "ts_max"),
+  St("S", "ruv_del"), St("S", "ruv_add"),
+  St("S", "entries"), St("S", "idl"), St("S", "names"),
+  St("S", "sql_commit"),
+  St("C", "post_commit"),
+  St("P", "be"), St("P", "ruv"), St("P", "idxmeta"),
+  St("P", "cid"), St("P", "fcache"), St("P", "schema"), St("P", "dinfo"), St("P", "syscfg"),
+  St("P", "feature"), St("P", "phase"), St("P", "dyngroup"), St("P", "keys"), St("P", "acp"),
+  St("P", "apps"), St("P", "oauth2"), St("P", "credsess"), St("P", "o2prov") >>
+CommitSteps == IF CommitOrder = "storage_first" THEN CommitStepsStorageFirst ELSE CommitStepsPublishFirst
 NSteps == Len(CommitSteps)
 StepPos(c) == CHOOSE i \in 1..NSteps : CommitSteps[i].c = c
 PublishedBefore(i) == {CommitSteps[j].c : j \in {j \in 1..(i - 1) : CommitSteps[j].t = "P"}}
@@ -179,7 +197,7 @@ ReaderSteps == <<
   Rs("q.sql", {"sqlite"}) >>
 \* Steps of IdmServerProxyWriteTransaction::commit -> QueryServerWriteTransaction::commit ->
 \* BackendWriteTransaction::commit -> IdlArcSqliteWriteTransaction::commit (same convention).
-WriterSteps == <<
+WriterStepsPublishFirst == <<
   Rs("w.apps", {"apps"}), Rs("w.oauth2", {"oauth2"}), Rs("w.credsess", {}), Rs("w.o2prov", {}),
   Rs("w.qs", {}), Rs("w.ts_max", {}), Rs("w.cid", {"cid"}), Rs("w.fcache", {"fcache"}),
   Rs("w.cfg", {"schema", "dinfo", "syscfg", "feature", "phase", "dyngroup", "keys", "acp"}),
@@ -187,6 +205,16 @@ WriterSteps == <<
   Rs("w.op_ts_max", {}), Rs("w.name_cache", {"name_cache"}), Rs("w.idx_exists", {"idx_exists"}),
   Rs("w.idl_cache", {"idl_cache"}), Rs("w.allids", {"allids"}), Rs("w.maxid", {}), Rs("w.keyhandles", {}),
   Rs("w.entry_cache", {"entry_cache"}), Rs("w.ruv", {"ruv"}), Rs("w.idxmeta", {"idxmeta"}) >>
+WriterStepsStorageFirst == <<
+  Rs("w.qs", {}), Rs("w.ts_max", {}),
+  Rs("w.ruv_flush", {}), Rs("w.flush", {}), Rs("w.sql_commit", {"sqlite"}),
+  Rs("w.op_ts_max", {}), Rs("w.name_cache", {"name_cache"}), Rs("w.idx_exists", {"idx_exists"}),
+  Rs("w.idl_cache", {"idl_cache"}), Rs("w.allids", {"allids"}), Rs("w.maxid", {}), Rs("w.keyhandles", {}),
+  Rs("w.entry_cache", {"entry_cache"}), Rs("w.ruv", {"ruv"}), Rs("w.idxmeta", {"idxmeta"}),
+  Rs("w.cid", {"cid"}), Rs("w.fcache", {"fcache"}),
+  Rs("w.cfg", {"schema", "dinfo", "syscfg", "feature", "phase", "dyngroup", "keys", "acp"}),
+  Rs("w.apps", {"apps"}), Rs("w.oauth2", {"oauth2"}), Rs("w.credsess", {}), Rs("w.o2prov", {}) >>
+WriterSteps == IF CommitOrder = "storage_first" THEN WriterStepsStorageFirst ELSE WriterStepsPublishFirst
 SnapComps == UNION {ReaderSteps[i].c : i \in 1..Len(ReaderSteps)}
                 \cup UNION {WriterSteps[i].c : i \in 1..Len(WriterSteps)}
 
